@@ -14,6 +14,8 @@ const PROPS: &[Prop] = &[
     Prop { id: "C02", level: "fault_enumeration", run: props::c02::run, replay: props::c02::replay },
     Prop { id: "C03", level: "exploration", run: props::c03::run, replay: props::c03::replay },
     Prop { id: "C04", level: "exploration", run: props::c04::run, replay: props::c04::replay },
+    Prop { id: "C05", level: "exploration", run: props::c05::run, replay: props::c05::replay },
+    Prop { id: "C06", level: "exploration", run: props::c06::run, replay: props::c06::replay },
     Prop { id: "C07", level: "fault_enumeration", run: props::c07::run, replay: props::c07::replay },
     Prop { id: "C09", level: "exploration", run: props::c09::run, replay: props::c09::replay },
     Prop { id: "C10", level: "fault_enumeration", run: props::c10::run, replay: props::c10::replay },
